@@ -18,6 +18,7 @@ class C24(Spec):
         "C24.reference_capacity",
         "C24.reference_eviction",
         "C24.queue_order_capacity",
+        "C24.ties_in_arrival_order",
     )
     level_text = (
         "Lean theorems about the model of common/skiplist: the skip list as lanes over one node list (lane i = nodes of "
